@@ -121,6 +121,42 @@ def run(P, tier="quick"):
         R.violated(Finding("R34b", PROPS, FILE, "_vnacommon_lu", "pivot-metric",
                            "pivot metric '%s' has row-scaling degree %s (must be 0): rows are not compared relative to "
                            "their own largest element" % (metric.text(), d), target.line))
+    # row swap consistency: in the block that exchanges the pivot row (best_index) with row j, every per-row
+    # local array must carry row j's entry to position best_index (position j holds the pivot row from then on
+    # and is not searched again); copying the other way overwrites the displaced row's scale
+    swap_if = None
+    for n in f.walk():
+        if n.k == "IfStmt":
+            c = [x for x in n.kids if x is not None][0].strip()
+            if c.k == "BinaryOperator" and c.op == "!=" and {c.kids[0].strip().refname, c.kids[1].strip().refname} >= {"best_index"}:
+                swap_if = n
+    if swap_if is None:
+        raise AnalysisBroken("_vnacommon_lu: row swap block (best_index != j) not found")
+    c = [x for x in swap_if.kids if x is not None][0].strip()
+    other = [x.strip() for x in c.kids if x.strip().refname != "best_index"][0]
+    best = [x.strip() for x in c.kids if x.strip().refname == "best_index"][0]
+    local_arrays = {v.get("decl"): v.get("name") for v in f.vardecls() if v.d.get("_dims") and "double" in v.ctype and "_Complex" not in v.ctype}
+    moves = {}
+    for m in swap_if.walk():
+        if m.k == "BinaryOperator" and m.op == "=":
+            l, r = m.kids[0].strip(), m.kids[1].strip()
+            if l.k == "ArraySubscriptExpr" and r.k == "ArraySubscriptExpr" and l.kids[0].strip().k == "DeclRefExpr" and \
+                    l.kids[0].strip().refdecl in local_arrays and r.kids[0].strip().refdecl == l.kids[0].strip().refdecl:
+                moves.setdefault(local_arrays[l.kids[0].strip().refdecl], []).append(
+                    (l.kids[1].strip().refdecl, r.kids[1].strip().refdecl, m))
+    for name in sorted(local_arrays.values()):
+        mv = moves.get(name, [])
+        key = "R34b|%s|_vnacommon_lu|swap:%s" % (FILE, name)
+        good = any(a == best.refdecl and b == other.refdecl for (a, b, m) in mv)
+        rev = [m for (a, b, m) in mv if a == other.refdecl and b == best.refdecl]
+        if good and not rev:
+            R.ok(key, PROPS)
+        else:
+            ln = rev[0].line if rev else swap_if.line
+            R.violated(Finding("R34b", PROPS, FILE, "_vnacommon_lu", "swap:" + name,
+                               "when rows best_index and %s are exchanged, %s[] must receive %s[%s] at position best_index; found %s" %
+                               (other.refname, name, name, other.refname,
+                                ", ".join(m.text() for (_, _, m) in mv) or "no move at all"), ln))
     R.counts["degree"] = str(d)
     R.check_floor()
     return R
